@@ -112,7 +112,7 @@ theorem parseUnitLine_noResult (O : Oracles) (fn : Bytes) (ln : Nat) (units : Un
   unfold parseUnitLine
   split
   · simp [Rec.isResult]
-  · exact unitFields_noResult ..
+  · exact unitFields_noResult _ _ _ _ _ _
 
 theorem map_abs_noResult (q : List Rec) (h : ∀ r ∈ q, r.isResult = false) :
     (q.map ofRecNoResult).map SRec.abs = q.map Rec.abs := by
@@ -139,10 +139,10 @@ theorem scanLine_refines (O : Oracles) (st : RState) (m : CMap) (hl : Linked st 
   by_cases hp : Bytes.hasPrefix line benchmarkPrefix = true
   · simp only [hp, ↓reduceIte]
     cases hb : parseBenchmarkLine O line with
-    | skip => exact ⟨⟨hl.inv, hl.map⟩, rfl, rfl, rfl, rfl⟩
-    | err msg => exact ⟨⟨hl.inv, hl.map⟩, rfl, rfl, rfl, rfl⟩
+    | skip => exact ⟨⟨hl.inv, hl.map⟩, by first | rfl | trivial, by first | rfl | trivial, by first | rfl | trivial, by first | rfl | trivial⟩
+    | err msg => exact ⟨⟨hl.inv, hl.map⟩, by first | rfl | trivial, by first | rfl | trivial, by first | rfl | trivial, by first | rfl | trivial⟩
     | ok name iters vals =>
-      refine ⟨⟨hl.inv, hl.map⟩, rfl, rfl, rfl, ?_⟩
+      refine ⟨⟨hl.inv, hl.map⟩, by first | rfl | trivial, by first | rfl | trivial, by first | rfl | trivial, ?_⟩
       simp only [reduceCtorEq, ↓reduceIte, List.map_cons, List.map_nil, Rec.abs, SRec.abs]
       have : cfgGet st.store.live = CMap.get m := by
         funext k; rw [Store.cfgGet_live hl.inv]; exact hl.map k
@@ -153,17 +153,17 @@ theorem scanLine_refines (O : Oracles) (st : RState) (m : CMap) (hl : Linked st 
     cases hu : isUnitLine O.uc line with
     | some rest =>
       simp only [Option.isSome_some, ↓reduceIte]
-      refine ⟨⟨hl.inv, hl.map⟩, rfl, rfl, rfl, ?_⟩
-      exact (map_abs_noResult _ (parseUnitLine_noResult ..)).symm
+      refine ⟨⟨hl.inv, hl.map⟩, by first | rfl | trivial, by first | rfl | trivial, by first | rfl | trivial, ?_⟩
+      exact (map_abs_noResult _ (parseUnitLine_noResult _ _ _ _ _)).symm
     | none =>
       simp only [Option.isSome_none, Bool.false_eq_true, ↓reduceIte]
       cases hk : parseKeyValueLine O.uc line with
-      | none => exact ⟨⟨hl.inv, hl.map⟩, rfl, rfl, rfl, rfl⟩
+      | none => exact ⟨⟨hl.inv, hl.map⟩, by first | rfl | trivial, by first | rfl | trivial, by first | rfl | trivial, by first | rfl | trivial⟩
       | some kv =>
         obtain ⟨k, v⟩ := kv
         simp only [Option.isSome_some, ↓reduceIte]
         obtain ⟨hi, hg⟩ := Store.set_spec hl.inv k v true
-        refine ⟨⟨hi, ?_⟩, rfl, rfl, rfl, rfl⟩
+        refine ⟨⟨hi, ?_⟩, by first | rfl | trivial, by first | rfl | trivial, by first | rfl | trivial, by first | rfl | trivial⟩
         intro k'
         simp only [Store.toMap, hg, CMap.get_assign]
         by_cases hk' : k' = k
@@ -222,9 +222,8 @@ theorem readLines_nodup (O : Oracles) (ls : List Bytes) :
         · simp at h
       · rw [unit_guard] at h
         split at h
-        · exact absurd rfl (by
-            have := parseUnitLine_noResult O st.fileName (st.line + 1) st.units _ _ h
-            simpa [Rec.isResult] using this)
+        · have := parseUnitLine_noResult O st.fileName (st.line + 1) st.units _ _ h
+          simp [Rec.isResult] at this
         · split at h <;> simp at h
     · exact ih _ _ hl' r h
 
@@ -244,5 +243,85 @@ theorem fill_spec (O : Oracles) (ls : List Bytes) :
     cases hq : (scanLine O st l).2 with
     | nil => simp only [List.isEmpty_nil, ↓reduceIte, List.nil_append]; exact ih _
     | cons a q => simp
+
+end Fmt
+
+namespace Fmt
+open Spec.Format
+
+theorem fill_empty (O : Oracles) (ls : List Bytes) :
+    ∀ st, (fill O st ls).2.2 = [] → (fill O st ls).2.1 = [] := by
+  induction ls with
+  | nil => intro st _; rfl
+  | cons l ls ih =>
+    intro st h
+    simp only [fill] at h ⊢
+    cases hq : (scanLine O st l).2 with
+    | nil => simp only [hq, List.isEmpty_nil, ↓reduceIte] at h ⊢; exact ih _ h
+    | cons a q => simp [hq] at h
+
+/-! ### Reset -/
+
+theorem toMap_reset (s : Store) (k : Bytes) : s.reset.toMap k = none := by
+  simp [Store.toMap, Store.get, Store.configIndex, Store.index_reset, Index.get]
+
+theorem installConfig_linked (kvs : List (Bytes × Bytes)) :
+    ∀ (s : Store) (m : CMap), s.Inv → (∀ k, s.toMap k = m.get k) →
+      (installConfig s kvs).Inv ∧
+      ∀ k, (installConfig s kvs).toMap k = (kvs.foldl (fun m kv => m.assign kv.1 kv.2 false) m).get k := by
+  induction kvs with
+  | nil => intro s m hi hm; exact ⟨hi, hm⟩
+  | cons kv kvs ih =>
+    intro s m hi hm
+    obtain ⟨k, v⟩ := kv
+    obtain ⟨hi', hg⟩ := Store.set_spec hi k v false
+    simp only [installConfig, List.foldl_cons]
+    apply ih _ _ hi'
+    intro k'
+    simp only [Store.toMap, hg, CMap.get_assign]
+    by_cases hk' : k' = k
+    · by_cases hv : v = [] <;> simp [hk', hv]
+    · simpa [hk', Store.toMap] using hm k'
+
+/-- After `Reset` the reader is linked to the map that holds just the installed configuration —
+whatever the store held before (live or stale). -/
+theorem reset_linked (st : RState) (fn : Bytes) (kvs : List (Bytes × Bytes)) :
+    Linked (st.reset fn kvs) (kvs.foldl (fun m kv => m.assign kv.1 kv.2 false) []) := by
+  obtain ⟨h1, h2⟩ := installConfig_linked kvs st.store.reset [] (Store.inv_reset _)
+    (fun k => by rw [toMap_reset]; rfl)
+  exact ⟨h1, h2⟩
+
+end Fmt
+
+namespace Fmt
+
+theorem unitField_extends (fn : Bytes) (ln : Nat) (unit tidy : Bytes) (units : UnitMap) (f : Bytes) :
+    ∃ more, (unitField fn ln unit tidy units f).1 = units ++ more := by
+  unfold unitField
+  simp only
+  split
+  · exact ⟨[], by simp⟩
+  · split
+    · split <;> exact ⟨[], by simp⟩
+    · exact ⟨_, rfl⟩
+
+theorem unitFields_extends (fn : Bytes) (ln : Nat) (unit tidy : Bytes) (fs : List Bytes) :
+    ∀ units : UnitMap, ∃ more, (unitFields fn ln unit tidy units fs).1 = units ++ more := by
+  induction fs with
+  | nil => intro units; exact ⟨[], by simp [unitFields]⟩
+  | cons f fs ih =>
+    intro units
+    obtain ⟨m1, h1⟩ := unitField_extends fn ln unit tidy units f
+    obtain ⟨m2, h2⟩ := ih (unitField fn ln unit tidy units f).1
+    refine ⟨m1 ++ m2, ?_⟩
+    simp only [unitFields]
+    rw [h2, h1, List.append_assoc]
+
+theorem parseUnitLine_extends (O : Oracles) (fn : Bytes) (ln : Nat) (units : UnitMap) (line : Bytes) :
+    ∃ more, (parseUnitLine O fn ln units line).1 = units ++ more := by
+  unfold parseUnitLine
+  split
+  · exact ⟨[], by simp⟩
+  · exact unitFields_extends _ _ _ _ _ _
 
 end Fmt
